@@ -206,6 +206,121 @@ func exprText(e ast.Expr) string {
 	return "?"
 }
 
+
+// ---------------------------------------------------------------- inlining walker
+//
+// Several facts are about the ORDER in which a function performs certain calls. A refactoring that
+// moves some of them into a helper of the same file must not change the fact, so calls to functions
+// declared in the same file are followed (depth-limited), with parameters bound to a description of
+// the argument at the call site.
+
+type funcTable map[string]*ast.FuncDecl
+
+func funcsOf(f *ast.File) funcTable {
+	t := funcTable{}
+	if f == nil {
+		return t
+	}
+	for _, d := range f.Decls {
+		if fd, ok := d.(*ast.FuncDecl); ok && fd.Body != nil {
+			t[fd.Name.Name] = fd
+		}
+	}
+	return t
+}
+
+// describe names an expression: a call `x.f()` is "call:f", an identifier is resolved through the
+// parameter bindings and the local `name := expr` definitions of fd, `a + "lit"` is "<a>+lit".
+func describe(e ast.Expr, fd *ast.FuncDecl, bind map[string]string, depth int) string {
+	switch t := e.(type) {
+	case *ast.CallExpr:
+		switch f := t.Fun.(type) {
+		case *ast.SelectorExpr:
+			return "call:" + f.Sel.Name
+		case *ast.Ident:
+			return "call:" + f.Name
+		}
+	case *ast.Ident:
+		if v, ok := bind[t.Name]; ok {
+			return v
+		}
+		if fd != nil && depth < 4 {
+			var def ast.Expr
+			ast.Inspect(fd.Body, func(n ast.Node) bool {
+				if as, ok := n.(*ast.AssignStmt); ok && as.Tok == token.DEFINE && len(as.Lhs) == len(as.Rhs) {
+					for i, l := range as.Lhs {
+						if li, ok := l.(*ast.Ident); ok && li.Name == t.Name && def == nil {
+							def = as.Rhs[i]
+						}
+					}
+				}
+				return true
+			})
+			if def != nil {
+				return describe(def, fd, bind, depth+1)
+			}
+		}
+		return "id:" + t.Name
+	case *ast.BinaryExpr:
+		if t.Op == token.ADD {
+			if bl, ok := t.Y.(*ast.BasicLit); ok && bl.Kind == token.STRING {
+				lit, _ := strconv.Unquote(bl.Value)
+				return describe(t.X, fd, bind, depth+1) + "+" + lit
+			}
+		}
+	case *ast.BasicLit:
+		return t.Value
+	}
+	return "?" + exprText(e)
+}
+
+// walkInlined visits every call expression of fd in source order, following calls to functions of
+// the same file. visit returns false to stop the walker from descending into that callee.
+func walkInlined(fd *ast.FuncDecl, funcs funcTable, bind map[string]string, stack []string, visit func(ce *ast.CallExpr, fd *ast.FuncDecl, bind map[string]string) bool) {
+	if fd == nil || fd.Body == nil || len(stack) > 4 {
+		return
+	}
+	ast.Inspect(fd.Body, func(n ast.Node) bool {
+		ce, ok := n.(*ast.CallExpr)
+		if !ok {
+			return true
+		}
+		if !visit(ce, fd, bind) {
+			return true
+		}
+		name := ""
+		switch f := ce.Fun.(type) {
+		case *ast.Ident:
+			name = f.Name
+		case *ast.SelectorExpr:
+			name = f.Sel.Name
+		}
+		callee, ok := funcs[name]
+		if !ok {
+			return true
+		}
+		for _, s := range stack {
+			if s == name {
+				return true
+			}
+		}
+		nb := map[string]string{}
+		pos := 0
+		if callee.Type.Params != nil {
+			for _, fld := range callee.Type.Params.List {
+				for _, pn := range fld.Names {
+					if pos < len(ce.Args) {
+						nb[pn.Name] = describe(ce.Args[pos], fd, bind, 0)
+					}
+					pos++
+				}
+			}
+		}
+		walkInlined(callee, funcs, nb, append(append([]string{}, stack...), name), visit)
+		return true
+	})
+}
+
 // ---------------------------------------------------------------- Consts
 
 func genConsts() string {
@@ -236,49 +351,77 @@ func genConsts() string {
 
 func genRedacted() string {
 	_, f := parseFile("modules/caddyhttp/marshalers.go")
-	fd := findFunc(f, "LoggableHTTPHeader", "MarshalLogObject")
+	// the set of credential header names = the string literals of the case clause (or composite literal)
+	// that lists "authorization", wherever in the file the refactoring of the day has put it
 	var names []string
-	guarded := false
-	if fd != nil {
-		ast.Inspect(fd, func(x ast.Node) bool {
-			cc, ok := x.(*ast.CaseClause)
-			if !ok {
-				return true
-			}
-			redacts := false
-			ast.Inspect(cc, func(y ast.Node) bool {
-				if bl, ok := y.(*ast.BasicLit); ok && bl.Kind == token.STRING && strings.Contains(bl.Value, "REDACTED") {
-					redacts = true
+	folded := false
+	if f != nil {
+		collect := func(exprs []ast.Expr) []string {
+			var out []string
+			has := false
+			for _, e := range exprs {
+				if kv, ok := e.(*ast.KeyValueExpr); ok {
+					e = kv.Key
 				}
-				return true
-			})
-			if redacts {
-				for _, e := range cc.List {
-					if bl, ok := e.(*ast.BasicLit); ok && bl.Kind == token.STRING {
-						s, _ := strconv.Unquote(bl.Value)
-						names = append(names, s)
+				if bl, ok := e.(*ast.BasicLit); ok && bl.Kind == token.STRING {
+					v, _ := strconv.Unquote(bl.Value)
+					out = append(out, strings.ToLower(v))
+					if strings.EqualFold(v, "authorization") {
+						has = true
 					}
 				}
 			}
-			return true
-		})
-		// the switch must be keyed on a lower-cased header name and guarded only by !ShouldLogCredentials
-		ast.Inspect(fd, func(x ast.Node) bool {
-			if sw, ok := x.(*ast.SwitchStmt); ok && sw.Tag != nil {
-				t := exprText(sw.Tag)
-				if strings.HasPrefix(t, "strings.ToLower(") && strings.Contains(t, "key") {
-					guarded = true
-				}
+			if !has {
+				return nil
 			}
-			return true
-		})
+			return out
+		}
+		for _, d := range f.Decls {
+			ast.Inspect(d, func(x ast.Node) bool {
+				switch t := x.(type) {
+				case *ast.CaseClause:
+					if got := collect(t.List); got != nil && names == nil {
+						names = got
+					}
+				case *ast.CompositeLit:
+					if got := collect(t.Elts); got != nil && names == nil {
+						names = got
+					}
+				}
+				return true
+			})
+		}
+		// the comparison is case-insensitive: the function holding that clause (or the one switching on
+		// its result) lower-cases / folds the header name
+		for _, d := range f.Decls {
+			fd, ok := d.(*ast.FuncDecl)
+			if !ok || fd.Body == nil {
+				continue
+			}
+			mentions, folds := false, false
+			ast.Inspect(fd.Body, func(x ast.Node) bool {
+				if bl, ok := x.(*ast.BasicLit); ok && bl.Kind == token.STRING && strings.EqualFold(strings.Trim(bl.Value, "\"`"), "authorization") {
+					mentions = true
+				}
+				if ce, ok := x.(*ast.CallExpr); ok {
+					t := exprText(ce.Fun)
+					if t == "strings.ToLower" || t == "strings.EqualFold" {
+						folds = true
+					}
+				}
+				return true
+			})
+			if mentions && folds {
+				folded = true
+			}
+		}
 	}
 	sort.Strings(names)
 	return header +
-		"/-- header names whose values `LoggableHTTPHeader` replaces by REDACTED (marshalers.go) -/\n" +
+		"/-- header names whose values `LoggableHTTPHeader` replaces by REDACTED (marshalers.go): the string literals\n    listed together with \"authorization\" -/\n" +
 		"def redactedHeaderNames : List String := " + leanStrList(names) + "\n\n" +
-		"/-- the redaction switch is keyed on `strings.ToLower(key)` -/\n" +
-		"def redactionIsCaseFolded : Bool := " + strconv.FormatBool(guarded) + "\n" + footer
+		"/-- the function that lists them folds the case of the header name (strings.ToLower / EqualFold) -/\n" +
+		"def redactionIsCaseFolded : Bool := " + strconv.FormatBool(folded) + "\n" + footer
 }
 
 // ---------------------------------------------------------------- directive order
@@ -310,31 +453,29 @@ func genDirectiveOrder() string {
 
 // ---------------------------------------------------------------- CA write order
 
-// storageCalls lists, in source order, the key-function names of ca.storage.<method>(ctx, ca.<keyFn>(), …)
-func storageCalls(fd *ast.FuncDecl, method string) []string {
+// storageCalls lists, in source order (helpers of the same file inlined), the key-function names of
+// <x>.storage.<method>(ctx, <key>, …) where <key> is `ca.<keyFn>()` directly or through a parameter /
+// local variable of a helper.
+func storageCalls(f *ast.File, fd *ast.FuncDecl, method string) []string {
 	var out []string
-	if fd == nil {
-		return out
-	}
-	ast.Inspect(fd.Body, func(x ast.Node) bool {
-		ce, ok := x.(*ast.CallExpr)
-		if !ok {
-			return true
-		}
+	funcs := funcsOf(f)
+	walkInlined(fd, funcs, map[string]string{}, []string{fdName(fd)}, func(ce *ast.CallExpr, cur *ast.FuncDecl, bind map[string]string) bool {
 		se, ok := ce.Fun.(*ast.SelectorExpr)
 		if !ok || se.Sel.Name != method || !strings.HasSuffix(exprText(se.X), "storage") || len(ce.Args) < 2 {
 			return true
 		}
-		if kc, ok := ce.Args[1].(*ast.CallExpr); ok {
-			if ks, ok := kc.Fun.(*ast.SelectorExpr); ok {
-				out = append(out, ks.Sel.Name)
-				return true
-			}
-		}
-		out = append(out, "?"+exprText(ce.Args[1]))
-		return true
+		d := describe(ce.Args[1], cur, bind, 0)
+		out = append(out, strings.TrimPrefix(d, "call:"))
+		return false
 	})
 	return out
+}
+
+func fdName(fd *ast.FuncDecl) string {
+	if fd == nil {
+		return ""
+	}
+	return fd.Name.Name
 }
 
 func genCAWrites() string {
@@ -346,14 +487,14 @@ func genCAWrites() string {
 		return xs[0]
 	}
 	return header +
-		"/-- order of `storage.Store` calls in `genRoot` (modules/caddypki/ca.go), by key function -/\n" +
-		"def genRootStores : List String := " + leanStrList(storageCalls(findFunc(f, "CA", "genRoot"), "Store")) + "\n\n" +
-		"/-- order of `storage.Store` calls in `genIntermediate` -/\n" +
-		"def genIntermediateStores : List String := " + leanStrList(storageCalls(findFunc(f, "CA", "genIntermediate"), "Store")) + "\n\n" +
+		"/-- order of `storage.Store` calls performed by `genRoot` (modules/caddypki/ca.go; helpers of the same file\n    inlined), by key function -/\n" +
+		"def genRootStores : List String := " + leanStrList(storageCalls(f, findFunc(f, "CA", "genRoot"), "Store")) + "\n\n" +
+		"/-- order of `storage.Store` calls performed by `genIntermediate` -/\n" +
+		"def genIntermediateStores : List String := " + leanStrList(storageCalls(f, findFunc(f, "CA", "genIntermediate"), "Store")) + "\n\n" +
 		"/-- the key whose absence makes `loadOrGenRoot` generate a new root (its first `storage.Load`) -/\n" +
-		"def rootMarker : String := " + leanStr(first(storageCalls(findFunc(f, "CA", "loadOrGenRoot"), "Load"))) + "\n\n" +
+		"def rootMarker : String := " + leanStr(first(storageCalls(f, findFunc(f, "CA", "loadOrGenRoot"), "Load"))) + "\n\n" +
 		"/-- the key whose absence makes `loadOrGenIntermediate` generate a new intermediate -/\n" +
-		"def intermediateMarker : String := " + leanStr(first(storageCalls(findFunc(f, "CA", "loadOrGenIntermediate"), "Load"))) + "\n" + footer
+		"def intermediateMarker : String := " + leanStr(first(storageCalls(f, findFunc(f, "CA", "loadOrGenIntermediate"), "Load"))) + "\n" + footer
 }
 
 // ---------------------------------------------------------------- autosave program
@@ -361,129 +502,153 @@ func genCAWrites() string {
 func genAutosave() string {
 	_, f := parseFile("caddy.go")
 	fd := findFunc(f, "", "unsyncedDecodeAndRun")
-	var ops []string
-	if fd != nil {
-		ast.Inspect(fd.Body, func(x ast.Node) bool {
-			ce, ok := x.(*ast.CallExpr)
-			if !ok {
-				return true
-			}
-			se, ok := ce.Fun.(*ast.SelectorExpr)
-			if !ok || exprText(se.X) != "os" {
-				return true
-			}
-			var args []string
-			for _, a := range ce.Args {
-				if id, ok := a.(*ast.Ident); ok {
-					args = append(args, id.Name)
-				}
-			}
-			ops = append(ops, se.Sel.Name+"("+strings.Join(args, ",")+")")
-			return true
-		})
+	funcs := funcsOf(f)
+	type osCall struct {
+		name string
+		args []string
 	}
-	// where unsyncedDecodeAndRun sits relative to the swap: the os.* calls must come after `unsyncedStop(oldCtx)`
-	afterStop := false
-	if fd != nil {
-		seenStop := false
-		ast.Inspect(fd.Body, func(x ast.Node) bool {
-			if ce, ok := x.(*ast.CallExpr); ok {
-				t := exprText(ce.Fun)
-				if t == "unsyncedStop" {
-					seenStop = true
-				}
-				if strings.HasPrefix(t, "os.WriteFile") || strings.HasPrefix(t, "os.Rename") {
-					if seenStop {
-						afterStop = true
-					} else {
-						afterStop = false
-					}
+	var calls []osCall
+	seenStop, afterStop, anyWrite := false, true, false
+	walkInlined(fd, funcs, map[string]string{}, []string{"unsyncedDecodeAndRun"}, func(ce *ast.CallExpr, cur *ast.FuncDecl, bind map[string]string) bool {
+		t := exprText(ce.Fun)
+		if t == "unsyncedStop" {
+			seenStop = true
+			return false
+		}
+		if t == "run" || t == "Log" || strings.HasPrefix(t, "Log().") {
+			return false // the config is run before; not part of the autosave program
+		}
+		se, ok := ce.Fun.(*ast.SelectorExpr)
+		if !ok || exprText(se.X) != "os" {
+			return true
+		}
+		c := osCall{name: se.Sel.Name}
+		for _, a := range ce.Args {
+			c.args = append(c.args, describe(a, cur, bind, 0))
+		}
+		calls = append(calls, c)
+		if c.name != "MkdirAll" {
+			anyWrite = true
+			if !seenStop {
+				afterStop = false
+			}
+		}
+		return false
+	})
+	var ops []string
+	for _, c := range calls {
+		ops = append(ops, c.name)
+	}
+	// "write a temporary file, then rename it over the autosave file"
+	tmpThenRename := false
+	for i, c := range calls {
+		if c.name == "WriteFile" && len(c.args) > 0 {
+			for _, r := range calls[i+1:] {
+				if r.name == "Rename" && len(r.args) == 2 && r.args[0] == c.args[0] && r.args[1] != c.args[0] &&
+					r.args[1] == "id:ConfigAutosavePath" && strings.HasPrefix(c.args[0], "id:ConfigAutosavePath+") {
+					tmpThenRename = true
 				}
 			}
-			return true
-		})
+		}
+	}
+	// nothing writes the autosave file in place
+	inPlace := false
+	for _, c := range calls {
+		if (c.name == "WriteFile" || c.name == "Create" || c.name == "OpenFile") && len(c.args) > 0 && c.args[0] == "id:ConfigAutosavePath" {
+			inPlace = true
+		}
 	}
 	return header +
-		"/-- the `os.*` calls of the autosave block of `unsyncedDecodeAndRun` (caddy.go), in source order,\n    with their identifier arguments -/\n" +
+		"/-- the `os.*` calls of the autosave part of `unsyncedDecodeAndRun` (caddy.go; helpers of the same file\n    inlined), in source order -/\n" +
 		"def autosaveOps : List String := " + leanStrList(ops) + "\n\n" +
+		"/-- some `os.WriteFile(t, …)` with `t = ConfigAutosavePath + <suffix>` is followed by `os.Rename(t, ConfigAutosavePath)` -/\n" +
+		"def autosaveWritesTempThenRenames : Bool := " + strconv.FormatBool(tmpThenRename) + "\n\n" +
+		"/-- no call creates or writes `ConfigAutosavePath` itself in place -/\n" +
+		"def autosaveNeverWritesInPlace : Bool := " + strconv.FormatBool(!inPlace) + "\n\n" +
 		"/-- the file is written only after the old config was stopped (i.e. after the swap) -/\n" +
-		"def autosaveAfterSwap : Bool := " + strconv.FormatBool(afterStop) + "\n" + footer
+		"def autosaveAfterSwap : Bool := " + strconv.FormatBool(anyWrite && afterStop) + "\n" + footer
 }
 
 // ---------------------------------------------------------------- admin gate
 
 func genAdminGate() string {
-	fset, f := parseFile("admin.go")
-	_ = fset
+	_, f := parseFile("admin.go")
 	fd := findFunc(f, "adminHandler", "serveHTTP")
-	var gates []string
-	muxLast := false
-	if fd != nil {
-		for i, st := range fd.Body.List {
-			switch s := st.(type) {
-			case *ast.IfStmt:
-				// name the gate by the functions it calls
-				var calls []string
-				ast.Inspect(s, func(x ast.Node) bool {
-					if ce, ok := x.(*ast.CallExpr); ok {
-						t := exprText(ce.Fun)
-						switch {
-						case strings.HasSuffix(t, "enforceAccessControls"):
-							calls = append(calls, "acl")
-						case strings.HasSuffix(t, "checkHost"):
-							calls = append(calls, "host")
-						case strings.HasSuffix(t, "checkOrigin"):
-							calls = append(calls, "origin")
-						}
-					}
-					return true
-				})
-				// the websocket gate: a condition that looks at the Upgrade header for "websocket"
-				hasUpgrade, hasWS := false, false
-				ast.Inspect(s.Cond, func(x ast.Node) bool {
-					if bl, ok := x.(*ast.BasicLit); ok && bl.Kind == token.STRING {
-						if strings.Contains(bl.Value, "Upgrade") {
-							hasUpgrade = true
-						}
-						if strings.Contains(strings.ToLower(bl.Value), "websocket") {
-							hasWS = true
-						}
-					}
-					return true
-				})
-				if hasUpgrade && hasWS {
-					calls = append(calls, "websocket")
+	funcs := funcsOf(f)
+	// functions that look at the Upgrade header for "websocket"
+	wsFuncs := map[string]bool{}
+	for name, d := range funcs {
+		up, ws := false, false
+		ast.Inspect(d.Body, func(x ast.Node) bool {
+			if bl, ok := x.(*ast.BasicLit); ok && bl.Kind == token.STRING {
+				if strings.Contains(bl.Value, "Upgrade") {
+					up = true
 				}
-				// every gate must be able to return early after handleError
-				returns := false
-				ast.Inspect(s, func(x ast.Node) bool {
-					if _, ok := x.(*ast.ReturnStmt); ok {
-						returns = true
-					}
-					return true
-				})
-				g := strings.Join(calls, "+")
-				if g == "" {
-					g = "other-if"
+				if strings.Contains(strings.ToLower(bl.Value), "websocket") {
+					ws = true
 				}
-				if !returns {
-					g += "(no-return)"
-				}
-				gates = append(gates, g)
-			case *ast.ExprStmt:
-				t := exprText(s.X)
-				if strings.HasPrefix(t, "h.mux.ServeHTTP") {
-					gates = append(gates, "mux")
-					muxLast = i == len(fd.Body.List)-1
-				} else {
-					gates = append(gates, "stmt:"+t)
-				}
-			default:
-				gates = append(gates, "other")
 			}
+			return true
+		})
+		if up && ws {
+			wsFuncs[name] = true
 		}
 	}
-	// how many times is the mux invoked anywhere in admin.go?
+	var gates []string
+	add := func(g string) {
+		if len(gates) == 0 || gates[len(gates)-1] != g {
+			gates = append(gates, g)
+		}
+	}
+	// the gates in the order serveHTTP reaches them (helpers of the same file inlined; the error path
+	// handleError, which re-enters serveHTTP for /id/ redirects, is not followed)
+	walkInlined(fd, funcs, map[string]string{}, []string{"serveHTTP"}, func(ce *ast.CallExpr, cur *ast.FuncDecl, bind map[string]string) bool {
+		t := exprText(ce.Fun)
+		name := t
+		if i := strings.LastIndex(t, "."); i >= 0 {
+			name = t[i+1:]
+		}
+		switch {
+		case name == "enforceAccessControls":
+			add("acl")
+			return false
+		case name == "checkHost":
+			add("host")
+			return false
+		case name == "checkOrigin":
+			add("origin")
+			return false
+		case strings.HasSuffix(t, "mux.ServeHTTP"):
+			add("mux")
+			return false
+		case name == "handleError":
+			return false
+		case wsFuncs[name] && name != "serveHTTP" && name != fdName(cur):
+			add("websocket")
+			return false
+		}
+		// a websocket test written inline in the function being walked
+		if (t == "strings.Contains" || t == "strings.EqualFold" || t == "slices.ContainsFunc") && wsFuncs[fdName(cur)] {
+			lit := false
+			ast.Inspect(ce, func(x ast.Node) bool {
+				if bl, ok := x.(*ast.BasicLit); ok && bl.Kind == token.STRING &&
+					(strings.Contains(bl.Value, "Upgrade") || strings.Contains(strings.ToLower(bl.Value), "websocket")) {
+					lit = true
+				}
+				return true
+			})
+			if lit {
+				add("websocket")
+			}
+		}
+		return true
+	})
+	muxLast := false
+	if fd != nil && len(fd.Body.List) > 0 {
+		if es, ok := fd.Body.List[len(fd.Body.List)-1].(*ast.ExprStmt); ok && strings.HasPrefix(exprText(es.X), "h.mux.ServeHTTP") {
+			muxLast = true
+		}
+	}
 	muxCalls := 0
 	if f != nil {
 		ast.Inspect(f, func(x ast.Node) bool {
@@ -494,7 +659,7 @@ func genAdminGate() string {
 		})
 	}
 	return header +
-		"/-- top-level statements of `adminHandler.serveHTTP` (admin.go) in order: the gates and the mux -/\n" +
+		"/-- the gates in the order `adminHandler.serveHTTP` (admin.go) reaches them, helpers of the same file inlined:\n    remote ACL, websocket refusal, host check, origin check, then the mux -/\n" +
 		"def adminGateSequence : List String := " + leanStrList(gates) + "\n\n" +
 		"def adminMuxIsLastStatement : Bool := " + strconv.FormatBool(muxLast) + "\n\n" +
 		"/-- number of `mux.ServeHTTP` call sites in admin.go -/\n" +
@@ -566,8 +731,11 @@ func hashTree(dir string) string {
 type logSite struct {
 	where string // pkg.func
 	key   string
-	kind  string // wrapped | wrappedcred:<expr> | headerget:<name> | raw:<type>
+	kind  string // wrapped | wrapped-value | wrappedcred:<flag> | headerget:<name> | raw:<type>
 }
+
+func (s logSite) pkg() string  { return strings.SplitN(s.where, ".", 2)[0] }
+func (s logSite) fn() string   { return strings.SplitN(s.where+".", ".", 3)[1] }
 
 func isSensitiveType(t types.Type) string {
 	s := types.TypeString(t, nil)
@@ -668,14 +836,14 @@ func genLogSites() string {
 	})
 	var sb strings.Builder
 	sb.WriteString(header)
-	sb.WriteString("/-- every zap field constructor call under modules/caddyhttp/... one of whose arguments is, or is\n    computed from, an http.Request / http.Header / http.Response / cookies (typed scan, go/types):\n    (function, field key, kind). kind = `wrapped` (LoggableHTTPRequest/LoggableHTTPHeader with credentials\n    off by default), `wrappedcred:<expr>` (the ShouldLogCredentials expression), `headerget:<name>` (a single\n    named header value), `raw:<type>` (anything else). -/\n")
-	sb.WriteString("def logSites : List (String × String × String) := [\n")
+	sb.WriteString("/-- every zap field constructor call under modules/caddyhttp/... one of whose arguments is, or is\n    computed from, an http.Request / http.Header / http.Response / cookies (typed scan, go/types):\n    (package, function, field key, kind). kind = `wrapped` (LoggableHTTPRequest/LoggableHTTPHeader with credentials\n    off by default), `wrappedcred:<expr>` (the ShouldLogCredentials expression), `headerget:<name>` (a single\n    named header value), `raw:<type>` (anything else). -/\n")
+	sb.WriteString("def logSites : List (String × String × String × String) := [\n")
 	for i, s := range sites {
 		sep := ","
 		if i == len(sites)-1 {
 			sep = ""
 		}
-		sb.WriteString(fmt.Sprintf("  (%s, %s, %s)%s\n", leanStr(s.where), leanStr(s.key), leanStr(s.kind), sep))
+		sb.WriteString(fmt.Sprintf("  (%s, %s, %s, %s)%s\n", leanStr(s.pkg()), leanStr(s.fn()), leanStr(s.key), leanStr(s.kind), sep))
 	}
 	sb.WriteString("]\n\n")
 	sb.WriteString("/-- the typed scan loaded and type-checked every package without error -/\n")
@@ -701,7 +869,37 @@ func flagKind(pkg *packages.Package, fd *ast.FuncDecl, e ast.Expr, depth int) st
 	if mentions(e) {
 		return "server-flag"
 	}
-	if id, ok := e.(*ast.Ident); ok && fd != nil {
+	// a call of a function or method of the same package whose body reads the flag: s.shouldLogCredentials()
+	if ce, ok := e.(*ast.CallExpr); ok && depth < 8 {
+		name := ""
+		switch f := ce.Fun.(type) {
+		case *ast.Ident:
+			name = f.Name
+		case *ast.SelectorExpr:
+			name = f.Sel.Name
+		}
+		for _, file := range pkg.Syntax {
+			for _, d := range file.Decls {
+				if cfd, ok := d.(*ast.FuncDecl); ok && cfd.Body != nil && cfd.Name.Name == name {
+					reads := false
+					ast.Inspect(cfd.Body, func(n ast.Node) bool {
+						if rs, ok := n.(*ast.ReturnStmt); ok {
+							for _, r := range rs.Results {
+								if mentions(r) {
+									reads = true
+								}
+							}
+						}
+						return true
+					})
+					if reads {
+						return "server-flag"
+					}
+				}
+			}
+		}
+	}
+	if id, ok := e.(*ast.Ident); ok && fd != nil && depth < 8 {
 		if id.Name == "false" {
 			return "off"
 		}
@@ -713,10 +911,10 @@ func flagKind(pkg *packages.Package, fd *ast.FuncDecl, e ast.Expr, depth int) st
 			}
 			for i, l := range as.Lhs {
 				if li, ok := l.(*ast.Ident); ok && li.Name == id.Name {
-					if mentions(as.Rhs[i]) {
+					if k := flagKind(pkg, fd, as.Rhs[i], depth+1); k == "server-flag" {
 						kind = "server-flag"
 					} else if kind == "" {
-						kind = "expr:" + exprText(as.Rhs[i])
+						kind = k
 					}
 				}
 			}
@@ -726,7 +924,7 @@ func flagKind(pkg *packages.Package, fd *ast.FuncDecl, e ast.Expr, depth int) st
 			return kind
 		}
 		// a parameter of the enclosing function: the callers (same package) decide
-		if depth < 3 && fd.Type.Params != nil {
+		if depth < 8 && fd.Type.Params != nil {
 			idx, pos := -1, 0
 			for _, f := range fd.Type.Params.List {
 				for _, n := range f.Names {
